@@ -19,6 +19,7 @@ type Outcome struct {
 	Panic     string // non-empty: a panic escaped the connection loop (process abort in production)
 	PanicSite string // first repository frame of the panic stack
 	Spin      string // non-empty: loop budget exceeded (site)
+	Deadlock  string // non-empty: the loop would block forever on a lock it holds itself (operation)
 	Err       string // error returned by the loop
 	Returned  bool   // the loop returned (normally or by panic)
 	Closes    int
@@ -59,10 +60,14 @@ func RunConnTLS(server *redis.Server, conn *seq.Conn, tlsState *tls.ConnectionSt
 					out.Spin = be.Site
 					return
 				}
+				if d, ok := r.(vrt.SoloDeadlock); ok {
+					out.Deadlock = d.Op
+				}
 				out.Panic = firstLine(fmt.Sprint(r))
 				out.PanicSite = PanicSite(string(debug.Stack()))
 			}
 		}()
+		defer vrt.Solo(vrt.Solo(true))
 		err := server.VerifServeConn(conn, tlsState)
 		if err != nil {
 			out.Err = err.Error()
